@@ -1,0 +1,77 @@
+//! Event sink for external verification tooling. Only compiled with `--cfg lexgen_verif`.
+//!
+//! Every operation of [`crate::Lexer`] that generated lexers use appends one event with the
+//! registers after the operation to a thread-local sink, when recording is switched on. Harness
+//! code can interleave its own marker events (e.g. "a semantic action starts", "next() returned")
+//! with [`mark`].
+
+use crate::Loc;
+use std::cell::RefCell;
+
+#[derive(Debug, Clone, Copy, PartialEq, Eq)]
+pub enum Op {
+    Next,
+    Peek,
+    BacktrackOk,
+    BacktrackErr,
+    SetAccepting,
+    ResetAccepting,
+    ResetMatch,
+    /// A marker inserted by the harness, see `Event::mark`
+    Mark,
+}
+
+#[derive(Debug, Clone)]
+pub struct Event {
+    pub op: Op,
+    pub c: Option<char>,
+    pub state: usize,
+    pub initial_state: usize,
+    pub done: bool,
+    pub match_start: Loc,
+    pub match_end: Loc,
+    /// Start and end of the saved match, if any
+    pub last_match: Option<(Loc, Loc)>,
+    /// Harness-defined payload of a marker event
+    pub mark: (i64, i64),
+}
+
+thread_local! {
+    static SINK: RefCell<Option<Vec<Event>>> = const { RefCell::new(None) };
+}
+
+/// Start (with an empty sink) or stop recording.
+pub fn record(on: bool) {
+    SINK.with(|s| *s.borrow_mut() = if on { Some(Vec::new()) } else { None });
+}
+
+pub fn emit(event: Event) {
+    SINK.with(|s| {
+        if let Some(events) = s.borrow_mut().as_mut() {
+            events.push(event);
+        }
+    })
+}
+
+/// Insert a harness marker.
+pub fn mark(kind: i64, arg: i64) {
+    emit(Event {
+        op: Op::Mark,
+        c: None,
+        state: 0,
+        initial_state: 0,
+        done: false,
+        match_start: Loc::default(),
+        match_end: Loc::default(),
+        last_match: None,
+        mark: (kind, arg),
+    })
+}
+
+/// Take the events recorded so far.
+pub fn take() -> Vec<Event> {
+    SINK.with(|s| match s.borrow_mut().as_mut() {
+        Some(events) => std::mem::take(events),
+        None => Vec::new(),
+    })
+}
